@@ -15,8 +15,9 @@ every list of bounds — no size bound — and come in three forms:
   (the laws hold on the values the solver meets on this input), the form the driver evaluates;
 * instantiated with the shared models (`solveCa tbl`, i.e. `le := ca tbl false`, `join := unite`).
 
-Exception classes (Spec/TypeVarSpec.lean): `D15_twoUppers`, `D15_anyUpper`, `D15_oneOfUpper`,
-`D15_nonTransitive`; each has a witness below on which the full statement is false.
+Exception classes (Spec/TypeVarSpec.lean): `D15_twoUppers`, `D15_oneOfUpper`, `D15_nonTransitive`;
+each has a witness below on which the full statement is false. (`anyUpper` — an `Any` upper bound
+wiping out the earlier ones — was repaired in /repo, commit 6dfe6d2; its witnesses are kept as regression theorems.)
 -/
 namespace Pya.C15
 
@@ -62,32 +63,32 @@ theorem solveCa_lower_partial (tbl : ClassTable) (bs : List Bound)
 
 /-! ## upper bounds — partial -/
 
-/-- **C15, upper bounds.** Under the same algebraic hypotheses, if no upper bound is `Any`
-(`¬ anyUpper`), the upper bounds are pairwise comparable (`¬ twoUppers`) and constraints do not
+/-- **C15, upper bounds.** Under the same algebraic hypotheses, if the upper bounds are pairwise
+comparable (`¬ twoUppers`; an `Any` upper bound is comparable with everything) and constraints do not
 come with an upper bound (`¬ oneOfUpper`), an accepted solve returns a value that every upper
 bound accepts. -/
 theorem solve_upper_partial {S : Ty → Prop} {le : Ty → Ty → Bool} {join : Ty → Ty → Ty}
     (laws : Laws S le join) (anyLaws : AnyLaws le) (join_closed : ∀ a b, S a → S b → S (join a b))
     (bs : List Bound) (hvals : ∀ v ∈ boundVals bs, v = .any ∨ S v)
-    (h1 : D15_anyUpper bs = false) (h2 : D15_twoUppers le bs = false) (h3 : D15_oneOfUpper bs = false)
+    (h2 : D15_twoUppers le bs = false) (h3 : D15_oneOfUpper bs = false)
     {s : Ty} {src : Src} (h : solve le join bs = .ok s src) : ∀ u ∈ uppers bs, le s u = true :=
-  solve_upper_core laws anyLaws bs (reach_AS_of_closed anyLaws join_closed bs hvals) h1 h2 h3 h
+  solve_upper_core laws anyLaws bs (reach_AS_of_closed anyLaws join_closed bs hvals) h2 h3 h
 
 theorem solve_upper_local {le : Ty → Ty → Bool} {join : Ty → Ty → Ty} (anyLaws : AnyLaws le)
     (bs : List Bound) (hnt : D15_nonTransitive le join bs = false)
-    (h1 : D15_anyUpper bs = false) (h2 : D15_twoUppers le bs = false) (h3 : D15_oneOfUpper bs = false)
+    (h2 : D15_twoUppers le bs = false) (h3 : D15_oneOfUpper bs = false)
     {s : Ty} {src : Src} (h : solve le join bs = .ok s src) : ∀ u ∈ uppers bs, le s u = true := by
   have hl : lawsOn le join (reach le join bs) = true := by simpa [D15_nonTransitive] using hnt
-  exact solve_upper_core (laws_of_lawsOn _ hl) anyLaws bs (as_sloc _) h1 h2 h3 h
+  exact solve_upper_core (laws_of_lawsOn _ hl) anyLaws bs (as_sloc _) h2 h3 h
 
 /-- **… for the modelled `can_assign`:** outside the four exception classes the chosen value is
 accepted by every upper bound and by the declared bound. -/
 theorem solveCa_upper_partial (tbl : ClassTable) (bs : List Bound)
     (hnt : D15_nonTransitive (leCa tbl) joinU bs = false)
-    (h1 : D15_anyUpper bs = false) (h2 : D15_twoUppers (leCa tbl) bs = false)
+    (h2 : D15_twoUppers (leCa tbl) bs = false)
     (h3 : D15_oneOfUpper bs = false) {s : Ty} {src : Src}
     (h : solveCa tbl bs = .ok s src) : ∀ u ∈ uppers bs, ca tbl false u s = true :=
-  solve_upper_local (anyLaws_ca tbl) bs hnt h1 h2 h3 h
+  solve_upper_local (anyLaws_ca tbl) bs hnt h2 h3 h
 
 /-! ## constraints — full strength -/
 
@@ -101,31 +102,31 @@ theorem solve_constraint (le : Ty → Ty → Bool) (join : Ty → Ty → Ty) (bs
 /-! ## the verdict — partial -/
 
 /-- **C15, "when no such value exists the call is diagnosed" — and conversely.** Outside the
-classes `anyUpper`, `twoUppers`, `oneOfUpper`, and with at most one constraint list, the solver
+classes `twoUppers`, `oneOfUpper`, and with at most one constraint list, the solver
 reports an error exactly when the order-free specification `specOk` finds the bounds
 unsatisfiable (`specOk_iff_exists` below: when no value of the carrier satisfies them). -/
 theorem solve_error_iff_partial {S : Ty → Prop} {le : Ty → Ty → Bool} {join : Ty → Ty → Ty}
     (laws : Laws S le join) (anyLaws : AnyLaws le) (join_closed : ∀ a b, S a → S b → S (join a b))
     (bs : List Bound) (hvals : ∀ v ∈ boundVals bs, v = .any ∨ S v)
-    (h1 : D15_anyUpper bs = false) (h2 : D15_twoUppers le bs = false) (h3 : D15_oneOfUpper bs = false)
+    (h2 : D15_twoUppers le bs = false) (h3 : D15_oneOfUpper bs = false)
     (h4 : multiOneOf bs = false) :
     (solve le join bs).isOk = false ↔ specOk le bs = false := by
-  rw [solve_isOk_eq_spec laws anyLaws bs (reach_AS_of_closed anyLaws join_closed bs hvals) h1 h2 h3 h4]
+  rw [solve_isOk_eq_spec laws anyLaws bs (reach_AS_of_closed anyLaws join_closed bs hvals) h2 h3 h4]
 
 theorem solve_error_iff_local {le : Ty → Ty → Bool} {join : Ty → Ty → Ty} (anyLaws : AnyLaws le)
     (bs : List Bound) (hnt : D15_nonTransitive le join bs = false)
-    (h1 : D15_anyUpper bs = false) (h2 : D15_twoUppers le bs = false) (h3 : D15_oneOfUpper bs = false)
+    (h2 : D15_twoUppers le bs = false) (h3 : D15_oneOfUpper bs = false)
     (h4 : multiOneOf bs = false) :
     (solve le join bs).isOk = false ↔ specOk le bs = false := by
   have hl : lawsOn le join (reach le join bs) = true := by simpa [D15_nonTransitive] using hnt
-  rw [solve_isOk_eq_spec (laws_of_lawsOn _ hl) anyLaws bs (as_sloc _) h1 h2 h3 h4]
+  rw [solve_isOk_eq_spec (laws_of_lawsOn _ hl) anyLaws bs (as_sloc _) h2 h3 h4]
 
 theorem solveCa_error_iff_partial (tbl : ClassTable) (bs : List Bound)
     (hnt : D15_nonTransitive (leCa tbl) joinU bs = false)
-    (h1 : D15_anyUpper bs = false) (h2 : D15_twoUppers (leCa tbl) bs = false)
+    (h2 : D15_twoUppers (leCa tbl) bs = false)
     (h3 : D15_oneOfUpper bs = false) (h4 : multiOneOf bs = false) :
     (solveCa tbl bs).isOk = false ↔ specOk (leCa tbl) bs = false :=
-  solve_error_iff_local (anyLaws_ca tbl) bs hnt h1 h2 h3 h4
+  solve_error_iff_local (anyLaws_ca tbl) bs hnt h2 h3 h4
 
 /-- **the specification means what it says.** For pairwise comparable non-`Any` upper bounds,
 constraints in the carrier and at most one constraint list, `specOk` holds exactly when some value of
@@ -136,21 +137,21 @@ theorem specOk_iff_exists {S : Ty → Prop} {le : Ty → Ty → Bool} {join : Ty
     (laws : Laws S le join) (anyLaws : AnyLaws le) (join_closed : ∀ a b, S a → S b → S (join a b))
     (bs : List Bound) (hvals : ∀ v ∈ boundVals bs, v = .any ∨ S v)
     (hopt : ∀ cs ∈ oneOfs bs, ∀ c ∈ cs, S c)
-    (h1 : D15_anyUpper bs = false) (h2 : D15_twoUppers le bs = false) (h4 : multiOneOf bs = false)
+    (h2 : D15_twoUppers le bs = false) (h4 : multiOneOf bs = false)
     (hne : ∃ a, S a) :
     specOk le bs = true ↔ ∃ s, S s ∧ Sat le bs s :=
-  specOk_iff_exists_core laws anyLaws bs (reach_AS_of_closed anyLaws join_closed bs hvals) hopt h1 h2 h4 hne
+  specOk_iff_exists_core laws anyLaws bs (reach_AS_of_closed anyLaws join_closed bs hvals) hopt h2 h4 hne
 
 /-! ## order independence — partial -/
 
-/-- **C15, order independence.** Under the algebraic hypotheses, for bounds outside `anyUpper` and
-`twoUppers` (properties of the multiset, stated for one order only) and with at most one constraint
+/-- **C15, order independence.** Under the algebraic hypotheses, for bounds outside
+`twoUppers` (a property of the multiset, stated for one order only) and with at most one constraint
 list, every permutation of the bounds gets the same verdict. (Constraints together with upper
 bounds — class `oneOfUpper` — do not disturb the verdict, only the solution.) -/
 theorem solve_perm_partial {S : Ty → Prop} {le : Ty → Ty → Bool} {join : Ty → Ty → Ty}
     (laws : Laws S le join) (anyLaws : AnyLaws le) (join_closed : ∀ a b, S a → S b → S (join a b))
     (bs bs' : List Bound) (hperm : bs.Perm bs') (hvals : ∀ v ∈ boundVals bs, v = .any ∨ S v)
-    (h1 : D15_anyUpper bs = false) (h2 : D15_twoUppers le bs = false) (h4 : multiOneOf bs = false) :
+    (h2 : D15_twoUppers le bs = false) (h4 : multiOneOf bs = false) :
     (solve le join bs).isOk = (solve le join bs').isOk := by
   have hvals' : ∀ v ∈ boundVals bs', v = .any ∨ S v := by
     intro v hv
@@ -160,9 +161,9 @@ theorem solve_perm_partial {S : Ty → Prop} {le : Ty → Ty → Bool} {join : T
     · exact Or.inl (Or.inl ((lowers_perm hperm).mem_iff.mpr hv))
     · exact Or.inl (Or.inr ((uppers_perm hperm).mem_iff.mpr hv))
     · exact Or.inr ⟨cs, (oneOfs_perm hperm).mem_iff.mpr hcs, hv⟩
-  rw [solve_isOk_eq_verdictSpec laws anyLaws bs (reach_AS_of_closed anyLaws join_closed bs hvals) h1 h2 h4,
+  rw [solve_isOk_eq_verdictSpec laws anyLaws bs (reach_AS_of_closed anyLaws join_closed bs hvals) h2 h4,
     solve_isOk_eq_verdictSpec laws anyLaws bs' (reach_AS_of_closed anyLaws join_closed bs' hvals')
-      (by rw [anyUpper_perm hperm]; exact h1) (by rw [twoUppers_perm le hperm]; exact h2)
+      (by rw [twoUppers_perm le hperm]; exact h2)
       (by rw [multiOneOf_perm hperm]; exact h4),
     verdictSpec_perm le hperm h4]
 
@@ -170,25 +171,25 @@ theorem solve_perm_partial {S : Ty → Prop} {le : Ty → Ty → Bool} {join : T
 theorem solve_perm_local {le : Ty → Ty → Bool} {join : Ty → Ty → Ty} (anyLaws : AnyLaws le)
     (bs bs' : List Bound) (hperm : bs.Perm bs')
     (hnt : D15_nonTransitive le join bs = false) (hnt' : D15_nonTransitive le join bs' = false)
-    (h1 : D15_anyUpper bs = false) (h2 : D15_twoUppers le bs = false) (h4 : multiOneOf bs = false) :
+    (h2 : D15_twoUppers le bs = false) (h4 : multiOneOf bs = false) :
     (solve le join bs).isOk = (solve le join bs').isOk := by
   have hl : lawsOn le join (reach le join bs) = true := by simpa [D15_nonTransitive] using hnt
   have hl' : lawsOn le join (reach le join bs') = true := by simpa [D15_nonTransitive] using hnt'
-  rw [solve_isOk_eq_verdictSpec (laws_of_lawsOn _ hl) anyLaws bs (as_sloc _) h1 h2 h4,
+  rw [solve_isOk_eq_verdictSpec (laws_of_lawsOn _ hl) anyLaws bs (as_sloc _) h2 h4,
     solve_isOk_eq_verdictSpec (laws_of_lawsOn _ hl') anyLaws bs' (as_sloc _)
-      (by rw [anyUpper_perm hperm]; exact h1) (by rw [twoUppers_perm le hperm]; exact h2)
+      (by rw [twoUppers_perm le hperm]; exact h2)
       (by rw [multiOneOf_perm hperm]; exact h4),
     verdictSpec_perm le hperm h4]
 
-/-- **… for the modelled `can_assign`:** outside the classes `anyUpper`, `twoUppers`,
+/-- **… for the modelled `can_assign`:** outside the classes `twoUppers`,
 `nonTransitive` the verdict of `resolve_bounds_map` does not depend on the order of the bounds. -/
 theorem solveCa_perm_partial (tbl : ClassTable) (bs bs' : List Bound) (hperm : bs.Perm bs')
     (hnt : D15_nonTransitive (leCa tbl) joinU bs = false)
     (hnt' : D15_nonTransitive (leCa tbl) joinU bs' = false)
-    (h1 : D15_anyUpper bs = false) (h2 : D15_twoUppers (leCa tbl) bs = false)
+    (h2 : D15_twoUppers (leCa tbl) bs = false)
     (h4 : multiOneOf bs = false) :
     (solveCa tbl bs).isOk = (solveCa tbl bs').isOk :=
-  solve_perm_local (anyLaws_ca tbl) bs bs' hperm hnt hnt' h1 h2 h4
+  solve_perm_local (anyLaws_ca tbl) bs bs' hperm hnt hnt' h2 h4
 
 /-- `resolve_bounds_map` is `solve` after the order-preserving de-duplication; the theorems above
 apply to the de-duplicated list (on which the driver also evaluates the exception classes). -/
@@ -243,10 +244,11 @@ def tObj : Ty := .typed 0
 theorem twoUppers_witness : upperHolds leH joinH [.upper tInt, .upper tStr] = false := by decide
 theorem twoUppers_in_class : D15_twoUppers leH [.upper tInt, .upper tStr] = true := by decide
 
-/-- `anyUpper`: `bool >= T, Any >= T, int >= T, int <= T`: the `Any` bound wipes out `bool`. -/
-theorem anyUpper_witness :
-    upperHolds leH joinH [.upper tBool, .upper .any, .upper tInt, .lower tInt] = false := by decide
-theorem anyUpper_in_class : D15_anyUpper [.upper tBool, .upper .any, .upper tInt, .lower tInt] = true := by decide
+/-- regression witness of the repaired class `anyUpper`: `bool >= T, Any >= T, int >= T, int <= T` is now
+rejected (`int` is not below `bool`) instead of being solved to `int`. -/
+theorem anyUpper_fixed :
+    (solve leH joinH [.upper tBool, .upper .any, .upper tInt, .lower tInt]).isOk = false ∧
+    upperHolds leH joinH [.upper tBool, .upper .any, .upper tInt] = true := by decide
 
 /-- `oneOfUpper`: `bool >= T` with constraints `(int, str)` is solved to `int`. -/
 theorem oneOfUpper_witness : upperHolds leH joinH [.upper tBool, .oneOf [tInt, tStr]] = false := by decide
@@ -275,10 +277,11 @@ theorem order_witness_twoUppers :
     (solve leH joinH [.upper tBool, .upper tInt, .upper tStr, .lower tStr]).isOk = true ∧
     (solve leH joinH [.upper tInt, .upper tStr, .upper tBool, .lower tStr]).isOk = false := by decide
 
-/-- order dependence through an `Any` upper bound (`anyUpper`) -/
-theorem order_witness_anyUpper :
-    (solve leH joinH [.upper tBool, .upper .any, .upper tInt, .lower tInt]).isOk = true ∧
-    (solve leH joinH [.upper .any, .upper tBool, .upper tInt, .lower tInt]).isOk = false := by decide
+/-- … and the position of the `Any` upper bound no longer matters -/
+theorem order_anyUpper_fixed :
+    (solve leH joinH [.upper tBool, .upper .any, .upper tInt, .lower tInt]).isOk = false ∧
+    (solve leH joinH [.upper .any, .upper tBool, .upper tInt, .lower tInt]).isOk = false ∧
+    (solve leH joinH [.upper tBool, .upper tInt, .lower tInt, .upper .any]).isOk = false := by decide
 
 theorem orderFull_false : ¬ OrderFull leH joinH := by
   intro h
@@ -337,11 +340,10 @@ theorem vals_ok_of_all {l : List Ty} (h : (l.all fun v => isAny v || SHb v) = tr
   · exact Or.inl (isAny_iff.mp h)
   · exact Or.inr h
 
-/-- a non-trivial input inside every hypothesis of the partial theorems: five bounds incl. an `Any`
-lower bound and two comparable upper bounds; accepted -/
-def exBounds : List Bound := [.lower tBool, .lower .any, .upper tObj, .lower tInt, .upper tInt]
+/-- a non-trivial input inside every hypothesis of the partial theorems: six bounds incl. an `Any`
+lower bound, an `Any` upper bound and two comparable upper bounds; accepted -/
+def exBounds : List Bound := [.lower tBool, .lower .any, .upper tObj, .upper .any, .lower tInt, .upper tInt]
 example : ∀ v ∈ boundVals exBounds, v = .any ∨ SH v := vals_ok_of_all (by decide)
-example : D15_anyUpper exBounds = false := by decide
 example : D15_twoUppers leH exBounds = false := by decide
 example : D15_oneOfUpper exBounds = false := by decide
 example : multiOneOf exBounds = false := by decide
@@ -389,13 +391,14 @@ theorem order_witness_ca :
     flatten1, ca, caAllR, caAnyL, typedCA, typOf, Ty.beq, Ty.hashEq, h1, h2, h3, h4, h5, h6, h7, h8, h9, h10, h11, h12, h13, h14, h15, h16]
 
 /-- the hypotheses of the `solveCa_*_partial` theorems are satisfiable over the live class table:
-`bool <= T, Any <= T, int <= T, object >= T, int >= T` -/
-def exBoundsCa : List Bound := [.lower (.typed 2), .lower .any, .lower (.typed 1), .upper (.typed 0), .upper (.typed 1)]
+`bool <= T, Any <= T, int <= T, object >= T, Any >= T, int >= T` -/
+def exBoundsCa : List Bound :=
+  [.lower (.typed 2), .lower .any, .lower (.typed 1), .upper (.typed 0), .upper .any, .upper (.typed 1)]
 example : D15_nonTransitive (leCa liveTable) joinU exBoundsCa = false ∧ D15_twoUppers (leCa liveTable) exBoundsCa = false
-    ∧ D15_anyUpper exBoundsCa = false ∧ D15_oneOfUpper exBoundsCa = false ∧ multiOneOf exBoundsCa = false
+    ∧ D15_oneOfUpper exBoundsCa = false ∧ multiOneOf exBoundsCa = false
     ∧ (solveCa liveTable exBoundsCa).isOk = true := by
   obtain ⟨h1, h2, h3, h4, h5, h6, h7, h8, h9, h10, h11, h12, h13, h14, h15, h16⟩ := nomFacts
-  simp [exBoundsCa, D15_nonTransitive, D15_twoUppers, D15_anyUpper, D15_oneOfUpper, multiOneOf, lawsOn, reach, boundVals, trail,
+  simp [exBoundsCa, D15_nonTransitive, D15_twoUppers, D15_oneOfUpper, multiOneOf, lawsOn, reach, boundVals, trail,
     solveCa, Result.isOk, solve, run, finish, pick, choose, step, lowers, uppers, oneOfs, isAny, leCa, joinU, unite, dedup, dictMem,
     flatten1, ca, caAllR, caAnyL, typedCA, typOf, Ty.beq, Ty.hashEq, h1, h2, h3, h4, h5, h6, h7, h8, h9, h10, h11, h12, h13, h14, h15, h16]
 
